@@ -103,16 +103,29 @@ struct BufObj {
 // a slice is an array handle (base class in the C++ view, first member in C) plus offset and visible length
 static array *arr_of(slice *s) { return s; }
 static array *arr_of(CObj<slice> &s) { return s.get(); }
-static void run_buffer(Ctx &c) {
+static void run_buffer(Ctx &c, bool outer = false) {
   Obs obs;
   W = &obs;
   struct Guard { ~Guard() { W = 0; } } guard;
   std::vector<BufObj> objs;
+  const type_traits *at = mpt_array_traits();
   CObj<array> h[3], slot[2];
   CObj<slice> sl[2];  // slice handles: an array member (one buffer reference) plus offset/visible length
-  const type_traits *at = mpt_array_traits();
+  // outer variant: two handles on buffers of array elements (mpt_array_traits) that name the buffers of h[]; re-typed by mpt_array_reserve
+  CObj<array> out[2];
+  const type_traits at_alias(at->size, at->fini, at->init);
+  auto holds_arrays = [&](const type_traits *t) { return t && t->fini == at->fini; };
+  auto out_elements = [&](auto &&fn) {  // every array element in the distinct outer buffers
+    CBuf *first = 0;
+    for (auto &o : out) {
+      CBuf *b = cbuf(o);
+      if (!b || b == first || !holds_arrays(b->traits)) continue;
+      if (!first) first = b;
+      for (size_t e = 0; e < b->used / sizeof(void *); e++) fn(((CBuf **)b->data())[e]);
+    }
+  };
   bool nontrivial = false;
-  c.label("buffer");
+  c.label(outer ? "buffer:outer-variant" : "buffer");
   auto adopt = [&](CBuf *b) {  // register a buffer object the library created (detach copy) or the harness made
     for (auto &o : objs) if (o.b == b && !o.toks.empty() && obs.trk.live.count(o.toks[0])) return;
     BufObj o;
@@ -132,6 +145,8 @@ static void run_buffer(Ctx &c) {
     for (auto &x : h) if (cbuf(x)) { int i = index(cbuf(x)); VP_CHECK(c, i >= 0, "harness", "unknown buffer in handle"); cnt[i]++; }
     for (auto &x : slot) if (cbuf(x)) { int i = index(cbuf(x)); VP_CHECK(c, i >= 0, "harness", "unknown buffer in slot"); cnt[i]++; }
     for (auto &x : sl) if (cbuf(arr_of(x))) { int i = index(cbuf(arr_of(x))); VP_CHECK(c, i >= 0, "harness", "unknown buffer in slice"); cnt[i]++; }
+    for (auto &o : out) if (cbuf(o) && !holds_arrays(cbuf(o)->traits)) VP_CHECK(c, cbuf(o)->used == 0, "retype-result", "after %s: outer buffer re-typed to %s keeps %zu bytes of content", op, cbuf(o)->traits ? "token elements" : "raw bytes", cbuf(o)->used);
+    out_elements([&](CBuf *b) { if (!b) return; int i = index(b); VP_CHECK(c, i >= 0, "unknown-reference", "after %s: an outer array element names an unknown buffer", op); cnt[i]++; });
     obs.trk.tally_begin();
     for (size_t i = 0; i < objs.size(); i++) {
       BufObj &o = objs[i];
@@ -158,9 +173,62 @@ static void run_buffer(Ctx &c) {
     size_t lost = obs.trk.unseen(first);
     VP_CHECK(c, !lost, "not-released", "after %s: %zu element(s) of no referenced buffer are still alive, e.g. %s", op, lost, first.c_str());
   };
-  auto alive_objs = [&]() { std::vector<int> v; for (size_t i = 0; i < objs.size(); i++) { long n = objs[i].extra; for (auto &x : h) if (cbuf(x) == objs[i].b) n++; for (auto &x : slot) if (cbuf(x) == objs[i].b) n++; for (auto &x : sl) if (cbuf(arr_of(x)) == objs[i].b) n++; bool newest = true; for (size_t j = i + 1; j < objs.size(); j++) if (objs[j].b == objs[i].b) newest = false; if (n > 0 && newest) v.push_back((int)i); } return v; };
+  auto alive_objs = [&]() { std::vector<int> v; for (size_t i = 0; i < objs.size(); i++) { long n = objs[i].extra; for (auto &x : h) if (cbuf(x) == objs[i].b) n++; for (auto &x : slot) if (cbuf(x) == objs[i].b) n++; for (auto &x : sl) if (cbuf(arr_of(x)) == objs[i].b) n++; out_elements([&](CBuf *b) { if (b == objs[i].b) n++; }); bool newest = true; for (size_t j = i + 1; j < objs.size(); j++) if (objs[j].b == objs[i].b) newest = false; if (n > 0 && newest) v.push_back((int)i); } return v; };
   while (c.more()) {
-    switch (c.weighted({6, 12, 6, 8, 8, 6, 6, 6, 6, 9, 3})) {
+    switch (outer ? c.weighted({6, 12, 6, 8, 8, 6, 6, 6, 6, 9, 3, 12, 12, 3, 3}) : c.weighted({6, 12, 6, 8, 8, 6, 6, 6, 6, 9, 3})) {
+      case 11: {  // outer variant: copy a handle into an element of an outer array of arrays
+        int k = (int)c.pick(2), j = (int)c.pick(3);
+        CBuf *ob = cbuf(out[k]);
+        if (ob && !holds_arrays(ob->traits)) break;  // re-typed: assignments of array elements are refused (covered by reserve)
+        size_t n = ob ? ob->used / sizeof(void *) : 0, pos = c.range(0, n + 1);
+        void *r = mpt_array_set(out[k], ob ? ob->traits : at, sizeof(void *), h[j].get(), (long)pos);
+        c.logf("mpt_array_set(outer%d, element %zu of %zu <- h%d) %s", k, pos, n, j, r ? "ok" : "refused");
+        if (r && pos < n) nontrivial = true;
+        c.label("buffer:outer-set");
+        check("outer set");
+        break;
+      }
+      case 12: {  // mpt_array_reserve on the outer array: keep, alias, token elements, raw bytes; from any of them
+        int k = (int)c.pick(2);
+        CBuf *ob = cbuf(out[k]);
+        const type_traits *was = ob ? ob->traits : 0;
+        static const char *names[] = {"the same content type", "an alias traits object (same finaliser)", "token elements (other finaliser)", "raw bytes"};
+        int to = (int)c.weighted({3, 3, 3, 6});
+        const type_traits *want = to == 0 ? (ob ? was : at) : to == 1 ? (was == &at_alias ? at : &at_alias) : to == 2 ? &kTok : 0;
+        size_t used = ob ? ob->used : 0, len = c.near({0, used, 64}, 200);
+        bool shared = ob && (flags_of(ob) & BufferShared);
+        size_t elems = (ob && holds_arrays(was)) ? used / sizeof(void *) : 0;
+        c.logf("mpt_array_reserve(outer%d, %zu bytes, %s) on %s buffer with %zu array element(s)", k, len, names[to], !ob ? "no" : shared ? "a shared" : "a private", elems);
+        buffer *r = mpt_array_reserve(out[k], len, want);
+        c.logf("  -> %s", r ? "ok" : "refused");
+        if (r) {
+          VP_CHECK(c, cbuf(out[k]) == (CBuf *)r && cbuf(out[k])->traits == want, "retype-result", "mpt_array_reserve returned a buffer with another content type than requested");
+          if (elems && !holds_arrays(want)) { nontrivial = true; c.label(want ? "retype:arrays-to-token" : "retype:arrays-to-raw"); }
+          else if (elems && want != was) c.label("retype:arrays-to-alias");
+          else if (ob && !holds_arrays(was) && holds_arrays(want)) c.label(was ? "retype:token-to-arrays" : "retype:raw-to-arrays");
+          if (shared) c.label("retype:shared-buffer");
+        }
+        check("outer reserve");
+        break;
+      }
+      case 13: {  // share the outer buffer between the two outer handles
+        int k = (int)c.pick(2);
+        if (!cbuf(out[1 - k])) break;
+        if (cbuf(out[k]) && cbuf(out[k])->traits != cbuf(out[1 - k])->traits) break;
+        c.logf("mpt_array_clone(outer%d, outer%d)", k, 1 - k);
+        mpt_array_clone(out[k], out[1 - k]);
+        check("outer clone");
+        break;
+      }
+      case 14: {  // release an outer handle
+        int k = (int)c.pick(2);
+        if (!cbuf(out[k])) break;
+        c.logf("mpt_array_clone(outer%d, NULL)", k);
+        mpt_array_clone(out[k], 0);
+        nontrivial = true;
+        check("outer release");
+        break;
+      }
       case 8: {  // attach a slice to the buffer of a handle (a handle without buffer gets a raw one first)
         int k = (int)c.pick(2), j = (int)c.pick(3);
         slice *v = sl[k].get();
@@ -337,6 +405,7 @@ static void run_buffer(Ctx &c) {
   }
   for (auto &x : h) if (cbuf(x)) mpt_array_clone(x, 0);
   for (auto &x : slot) at->fini(x);
+  for (auto &o : out) if (cbuf(o)) { mpt_array_clone(o, 0); check("outer release"); }
   for (auto &x : sl) if (cbuf(arr_of(x))) { mpt_array_clone(arr_of(x), 0); check("slice release"); }
   for (auto &o : objs) while (o.extra > 0) { o.b->vptr->unref(o.b); o.extra--; }
   check("final release");
@@ -382,12 +451,17 @@ struct MetaWorld {
   }
 };
 
-static void run_metaref(Ctx &c, const type_traits *mt = mpt_meta_reference_traits(), const char *kind = "metaref") {
+static void run_metaref(Ctx &c, const type_traits *mt = mpt_meta_reference_traits(), const char *kind = "metaref", bool retype = false) {
   MetaWorld w(c);
   void *slot[4] = {0, 0, 0, 0};
   CObj<array> h[2];
   bool nontrivial = false;
   c.label(kind);
+  // content types for mpt_array_reserve (retype variant): an alias object (same finaliser), the other kind of metatype
+  // reference (other finaliser, same element layout), token elements, raw bytes
+  const type_traits alias(mt->size, mt->fini, mt->init);
+  const type_traits *other = (mt == mpt_meta_reference_traits()) ? mpt_input_reference_traits() : mpt_meta_reference_traits();
+  auto holds_refs = [&](const type_traits *t) { return t && (t->fini == mt->fini || t->fini == other->fini); };
   auto check = [&](const char *op) {
     long cnt[MetaWorld::R + 1] = {0};
     for (void *p : slot) { int r = w.index(p); VP_CHECK(c, r >= 0, "harness", "unknown pointer in slot"); cnt[r]++; }
@@ -396,6 +470,10 @@ static void run_metaref(Ctx &c, const type_traits *mt = mpt_meta_reference_trait
       CBuf *b = cbuf(x);
       if (!b || b == first) continue;
       if (!first) first = b;
+      if (retype && !holds_refs(b->traits)) {  // re-typed to raw bytes or token elements: no references, and nothing may be left of the old ones
+        VP_CHECK(c, b->used == 0, "retype-result", "after %s: buffer re-typed to %s keeps %zu bytes of content", op, b->traits ? "token elements" : "raw bytes", b->used);
+        continue;
+      }
       for (size_t i = 0; i < b->used / sizeof(void *); i++) {
         int r = w.index(((void **)b->data())[i]);
         VP_CHECK(c, r >= 0, "unknown-reference", "after %s: buffer element %zu holds an unknown pointer", op, i);
@@ -406,7 +484,32 @@ static void run_metaref(Ctx &c, const type_traits *mt = mpt_meta_reference_trait
     cnt[0] = 0;
   };
   while (c.more()) {
-    switch (c.weighted({10, 8, 10, 10, 4, 4, 3})) {
+    switch (retype ? c.weighted({10, 8, 10, 10, 4, 4, 3, 12}) : c.weighted({10, 8, 10, 10, 4, 4, 3})) {
+      case 7: {  // mpt_array_reserve: keep, alias, other reference type, token elements, raw bytes; from any of them
+        int i = (int)c.pick(2);
+        CBuf *before = cbuf(h[i]);
+        const type_traits *was = before ? before->traits : 0;
+        static const char *names[] = {"the same content type", "an alias traits object (same finaliser)", "the other reference type (other finaliser)", "token elements", "raw bytes"};
+        int to = (int)c.weighted({3, 3, 4, 2, 6});
+        const type_traits *want = to == 0 ? (before ? was : mt) : to == 1 ? (was == &alias ? mt : &alias) : to == 2 ? (was && was->fini == other->fini ? mt : other) : to == 3 ? &kTok : 0;
+        size_t used = before ? before->used : 0;
+        size_t len = c.near({0, used, 64}, 200);
+        bool shared = before && (flags_of(before) & BufferShared);
+        size_t refs_before = (before && holds_refs(was)) ? used / sizeof(void *) : 0;
+        c.logf("mpt_array_reserve(h%d, %zu bytes, %s) on %s buffer with %zu reference(s) of content type %s", i, len, names[to], !before ? "no" : shared ? "a shared" : "a private",
+               refs_before, !before ? "-" : !was ? "raw" : was == &kTok ? "token" : was->fini == mt->fini ? (was == &alias ? "alias" : "main") : "other");
+        buffer *r = mpt_array_reserve(h[i], len, want);
+        c.logf("  -> %s", r ? "ok" : "refused");
+        if (r) {
+          VP_CHECK(c, cbuf(h[i]) == (CBuf *)r && cbuf(h[i])->traits == want, "retype-result", "mpt_array_reserve returned a buffer with another content type than requested");
+          if (refs_before && !(want && was && want->fini == was->fini)) { nontrivial = true; c.label(!want ? "retype:refs-to-raw" : want == &kTok ? "retype:refs-to-token" : "retype:refs-to-other-finaliser"); }
+          else if (refs_before && want != was) c.label("retype:refs-to-alias");
+          else if (before && !holds_refs(was) && holds_refs(want)) c.label(was ? "retype:token-to-refs" : "retype:raw-to-refs");
+          if (shared) c.label("retype:shared-buffer");
+        }
+        check("reserve");
+        break;
+      }
       case 0: {  // copy-construct a reference slot from an object or another slot
         int s = (int)c.pick(4);
         if (slot[s]) break;
@@ -443,7 +546,8 @@ static void run_metaref(Ctx &c, const type_traits *mt = mpt_meta_reference_trait
         size_t n = cbuf(h[i]) ? cbuf(h[i])->used / sizeof(void *) : 0;
         size_t k = c.range(0, 4), off = c.range(0, n + 1);
         c.logf("mpt_array_set(h%d, %zu reference(s) copied from the slots, offset %zu of %zu)", i, k, off, n);
-        void *r = mpt_array_set(h[i], mt, k * sizeof(void *), slot, (long)off);
+        const type_traits *st = (retype && cbuf(h[i]) && holds_refs(cbuf(h[i])->traits)) ? cbuf(h[i])->traits : mt;  // retype variant: the handle's current reference type
+        void *r = mpt_array_set(h[i], st, k * sizeof(void *), slot, (long)off);
         c.logf("  -> %s", r ? "ok" : "refused");
         if (r && off < n && k) nontrivial = true;
         c.label("metaref:array-set");
@@ -1272,7 +1376,8 @@ static void run_itemappend(Ctx &c) {
 
 static void run(Ctx &c) {
   // slots 8 and 10 (second slots of the two cxxref kinds, used by no corpus file) now select the item_array and input reference kinds
-  static const uint8_t map[16] = {0, 1, 1, 2, 2, 3, 3, 4, 9, 5, 10, 6, 6, 7, 7, 8};
+  // slots 2 and 4 (second slots of buffer / metaref, used by no corpus file): variants with mpt_array_reserve re-typing
+  static const uint8_t map[16] = {0, 1, 12, 2, 11, 3, 3, 4, 9, 5, 10, 6, 6, 7, 7, 8};
   switch (map[c.u8() % 16]) {
     case 0: run_counter(c); break;
     case 1: run_buffer(c); break;
@@ -1284,6 +1389,8 @@ static void run(Ctx &c) {
     case 7: run_reply(c); break;
     case 9: run_itemappend(c); break;
     case 10: run_metaref(c, mpt_input_reference_traits(), "inputref"); break;
+    case 11: c.flip() ? run_metaref(c, mpt_meta_reference_traits(), "metaref:retype", true) : run_metaref(c, mpt_input_reference_traits(), "inputref:retype", true); break;
+    case 12: run_buffer(c, true); break;
     default: run_rawdata(c); break;
   }
 }
